@@ -670,6 +670,15 @@ handle_new_connection(struct qb_ipcs_service *s,
 	const char suffix[] = "/qb";
 	int desc_len;
 
+	/*
+	 * The size the client asks for is not to be trusted: whatever it says,
+	 * a connection needs room for a message header (the socket transport
+	 * receives one into receive_buf before it looks at anything else).
+	 */
+	if (max_buffer_size < sizeof(struct qb_ipc_response_header)) {
+		max_buffer_size = sizeof(struct qb_ipc_response_header);
+	}
+
 	c = qb_ipcs_connection_alloc(s);
 	if (c == NULL) {
 		qb_ipcc_us_sock_close(sock);
